@@ -9,11 +9,11 @@ package main
 // a guard is written as `if c { continue }` or as `if !c { ... }`.
 
 import (
-	"os"
 	"fmt"
 	"go/constant"
 	"go/token"
 	"go/types"
+	"os"
 	"sort"
 	"strings"
 
@@ -266,7 +266,9 @@ func textEditInstances(c *Ctx, pkgRel string) []*editInst {
 
 // conds: the control conditions of an instance: those of its construction and those of the call sites on the
 // way there (one more level of callers of the constructing function is added when it has a single caller).
-func (e *editInst) conds(g interface{ callersOf(*ssa.Function) []ssa.CallInstruction }) []ctrlCond {
+func (e *editInst) conds(g interface {
+	callersOf(*ssa.Function) []ssa.CallInstruction
+}) []ctrlCond {
 	var out []ctrlCond
 	seen := map[*ssa.BasicBlock]bool{}
 	var add func(b *ssa.BasicBlock, depth int)
